@@ -92,6 +92,7 @@ structure Dom (A D : Type) where
   transfer : A → D → D
   check : A → D → Bool         -- precondition of an atom (also applied to conditions)
   assume : A → Bool → D → D := fun _ _ d => d   -- refinement by a condition's outcome (optional)
+  fuel : Nat := 8                                -- iterations allowed to reach a loop-head post-fixpoint
 
 structure Res (D : Type) where
   ok : Bool
@@ -143,7 +144,7 @@ def analyze {A D} (dom : Dom A D) : Prog A → D → Res D
     let r := Res.merge dom.join (analyze dom p (dom.assume c true d)) (analyze dom q (dom.assume c false d))
     { r with ok := r.ok && dom.check c d }
   | .loop b, d =>
-    let fx := loopFix dom.join dom.le (analyze dom b) 8 d
+    let fx := loopFix dom.join dom.le (analyze dom b) dom.fuel d
     -- `fx.1` must be above the entry state and a post-fixpoint of the body
     { ok := fx.2.1.ok && dom.le d fx.1 && fx.2.2,
       norm := some fx.1, exc := fx.2.1.exc, ret := fx.2.1.ret, brk := none }
